@@ -2,6 +2,7 @@ package main
 
 import (
 	"fmt"
+	"go/token"
 	"go/types"
 	"sort"
 	"strings"
@@ -11,7 +12,7 @@ import (
 
 func newGen(p *Program, sp *Specs, dropped map[string]bool) *Gen {
 	g := &Gen{P: p, Specs: sp, s: newScript(), heapSo: map[string]string{}, inits: map[string]*HV{}, frameI: map[string]bool{}, tags: map[string]int{},
-		dropped: dropped, touched: map[string]bool{}, trustedUse: map[string]bool{}, structs: map[string]*types.Struct{}, memSeen: map[string]bool{},
+		dropped: dropped, constMapsUsed: map[string]bool{}, touched: map[string]bool{}, trustedUse: map[string]bool{}, structs: map[string]*types.Struct{}, memSeen: map[string]bool{},
 		ghostVals: map[string]CV{}, paramVals: map[string]CV{}, exIDs: map[string]string{}, instTerms: map[string][]string{}, ifaceUse: map[string]bool{}, heapRead: map[string]bool{}}
 	if g.dropped == nil {
 		g.dropped = map[string]bool{}
@@ -155,6 +156,10 @@ func (g *Gen) genFunc(fs *FuncSpec) {
 		}
 		withAliases(rv, rename)
 		env := &Env{g: g, st: r.st, old: st0, vars: rv, pc: r.pc, hyp: false, frame: f}
+		for k, gs := range fs.AtRet {
+			r.pc = f.ghostStmt(gs, env, r.st, r.pc, fmt.Sprintf("%s#atreturn.%s@ret%d", fs.Key, ghostLabel(gs, k), n), r.pos)
+			env.pc = r.pc
+		}
 		for _, c := range fs.Defines {
 			henv := &Env{g: g, st: r.st, old: st0, vars: rv, pc: r.pc, hyp: true}
 			g.s.assumeUnder(r.pc, henv.tr(c.E, true).S)
@@ -208,6 +213,46 @@ func (g *Gen) genFunc(fs *FuncSpec) {
 			f.oblig("frame", fmt.Sprintf("%s#frame(%s)@ret%d", fs.Key, h, n), r.pc, goal, "assigns: "+h+" is unchanged on objects that existed at entry (except the listed locations)", r.pos, nil)
 		}
 	}
+}
+
+func ghostLabel(gs *GhostStmt, k int) string {
+	if gs.Clause != nil && gs.Clause.Label != "" {
+		return gs.Clause.Label
+	}
+	return fmt.Sprint(k)
+}
+
+// ghostStmt executes one ghost statement in state st: an assertion becomes an obligation (and
+// then strengthens the path condition); an update writes ghost state only.
+func (f *frame) ghostStmt(gs *GhostStmt, env *Env, st *State, pc, name string, pos token.Pos) string {
+	g := f.g
+	switch gs.Kind {
+	case "assert":
+		goal := env.tr(gs.Clause.E, true)
+		env.want(goal, "Bool", gs.Clause.E)
+		f.oblig("assert", name, pc, goal.S, "assert "+gs.Clause.Text, pos, gs.Clause.Props)
+		return and(pc, goal.S)
+	case "set":
+		henv := *env
+		henv.hyp = true
+		l := henv.locOf(gs.LHS)
+		if l.skip {
+			return pc
+		}
+		if !strings.HasPrefix(l.heap, "GH.") && !strings.HasPrefix(l.heap, "ghost.") {
+			fail("ghost update of non-ghost location %s", gs.LHS)
+		}
+		v := henv.tr(gs.RHS, true)
+		so := g.heapSort(l.heap)
+		if strings.HasPrefix(so, "(Array Int ") {
+			so = strings.TrimSuffix(strings.TrimPrefix(so, "(Array Int "), ")")
+		}
+		if v.So != so {
+			v = henv.coerce(v, so)
+		}
+		g.writeHeap(st, l.heap, l.ref, v.S)
+	}
+	return pc
 }
 
 func (g *Gen) wantClause(c *Clause) bool {
@@ -323,6 +368,12 @@ func (f *frame) invEnv(st *State, pc string, hyp bool, li *loopInfo) *Env {
 	}
 	for k, v := range g.ghostVals {
 		vars[k] = v
+	}
+	// a parameter the body re-assigns denotes its current value (its naive-form cell)
+	for _, p := range f.fn.Params {
+		if c := f.cells[p.Name()]; c != nil && f.paramCellMutable(p, c) {
+			delete(vars, p.Name())
+		}
 	}
 	e := &Env{g: g, st: st, old: g.entry, vars: vars, cells: f.cells, pc: pc, hyp: hyp, frame: f}
 	if li != nil {
@@ -552,6 +603,9 @@ func (f *frame) backEdge(from, to *ssa.BasicBlock, pc string, st *State) {
 	n := li.nback
 	li.nback++
 	if li.spec != nil {
+		for k, gs := range li.spec.AtEnd {
+			pc = f.ghostStmt(gs, f.invEnv(st, pc, false, li), st, pc, fmt.Sprintf("%s#loop%d.atend.%s.%d", key, li.ord, ghostLabel(gs, k), n), from.Instrs[len(from.Instrs)-1].Pos())
+		}
 		env := f.invEnv(st, pc, false, li)
 		for k, c := range li.spec.Invs {
 			goal := env.tr(c.E, true)
@@ -626,6 +680,15 @@ func (f *frame) loopMods(li *loopInfo) ([]*ssa.Alloc, []string) {
 				if st := li.entry; st != nil {
 					if t, live := st.cells[a]; live {
 						return t.S
+					}
+				}
+			}
+			// a captured (boxed) local whose box heap the loop does not write
+			if a, ok := x.X.(*ssa.Alloc); ok && a.Heap && x.Op.String() == "*" && phase == 1 && a.Parent() == f.fn && !li.body[a.Block()] {
+				if _, isStruct := a.Type().Underlying().(*types.Pointer).Elem().Underlying().(*types.Struct); !isStruct {
+					h := g.boxHeapOf(a.Type().Underlying().(*types.Pointer).Elem())
+					if ref, ok := f.vals[a]; ok && !phase0Heaps[h] && li.entry != nil {
+						return "(select " + g.hv(li.entry, h).term + " " + ref.S + ")"
 					}
 				}
 			}
@@ -961,6 +1024,29 @@ func (f *frame) loopMods(li *loopInfo) ([]*ssa.Alloc, []string) {
 			imprecise[h] = true
 		}
 	}
+	if li.spec != nil {
+		for _, gs := range li.spec.AtEnd {
+			if gs.Kind != "set" {
+				continue
+			}
+			h := ""
+			if gs.LHS.Op == "call" && gs.LHS.Args[0].Op == "ident" {
+				if _, ok := g.Specs.GhostFld[gs.LHS.Args[0].Name]; ok {
+					h = "GH." + gs.LHS.Args[0].Name
+				}
+			} else if gs.LHS.Op == "ident" {
+				if _, ok := g.Specs.GhostVar[gs.LHS.Name]; ok {
+					h = "ghost." + gs.LHS.Name
+				}
+			}
+			if h == "" {
+				fail("%s: ghost update of an unsupported location %s", f.fn.Name(), gs.LHS)
+			}
+			g.ghostHeapDecl(h)
+			heapSet[h] = true
+			imprecise[h] = true
+		}
+	}
 	for h := range imprecise {
 		delete(li.precise, h)
 	}
@@ -978,4 +1064,27 @@ func (f *frame) loopMods(li *loopInfo) ([]*ssa.Alloc, []string) {
 	}
 	sort.Slice(cells, func(i, j int) bool { return cells[i].Pos() < cells[j].Pos() || cells[i].Pos() == cells[j].Pos() && cells[i].Name() < cells[j].Name() })
 	return cells, sortedKeys(heapSet)
+}
+
+func (g *Gen) ghostHeapDecl(h string) {
+	if strings.HasPrefix(h, "GH.") {
+		gf := g.Specs.GhostFld[strings.TrimPrefix(h, "GH.")]
+		g.declHeap(h, "(Array Int "+gf[1]+")")
+		return
+	}
+	_, so := g.resolveType(g.Specs.GhostVar[strings.TrimPrefix(h, "ghost.")])
+	g.declHeap(h, so)
+}
+
+func (f *frame) paramCellMutable(p *ssa.Parameter, c *ssa.Alloc) bool {
+	fromParam, stores := false, 0
+	for _, r := range *c.Referrers() {
+		if st, ok := r.(*ssa.Store); ok && st.Addr == c {
+			stores++
+			if st.Val == p {
+				fromParam = true
+			}
+		}
+	}
+	return fromParam && stores > 1
 }
